@@ -118,6 +118,10 @@ EqG(u, v, tri) ==
 EqSpec(u, v) == EqG(u, v, FALSE)
 InSpec(u, s) == \E i \in 1..Len(s) : EqSpec(u, s[i])
 
+\* the first position at which two equally long sequences of values differ under EqSpec (there is one), from i on
+RECURSIVE FirstDiff(_, _, _)
+FirstDiff(a, b, i) == IF i >= Len(a) \/ ~EqSpec(a[i], b[i]) THEN i ELSE FirstDiff(a, b, i + 1)
+
 \* why two values differ under EqSpec: the first reason met walking both in step
 RECURSIVE Why(_, _)
 Why(u, v) ==
@@ -125,7 +129,7 @@ Why(u, v) ==
     ELSE IF Kind(u) # Kind(v) THEN "type"
     ELSE IF ~FrameEqG(u, v, FALSE) \/ Len(Items(u)) # Len(Items(v)) THEN "shape"
     ELSE LET a == Items(u)  b == Items(v)
-             k == CHOOSE i \in 1..Len(a) : ~EqSpec(a[i], b[i]) /\ \A j \in 1..(i - 1) : EqSpec(a[j], b[j])
+             k == FirstDiff(a, b, 1)
          IN  Why(a[k], b[k])
 
 \* where two values differ: the classes of the two sub-values at that first difference, "x/y"
@@ -142,7 +146,7 @@ At(u, v) ==
     ELSE IF (IsLeaf(u) /\ IsLeaf(v)) \/ Kind(u) # Kind(v) \/ ~FrameEqG(u, v, FALSE) \/ Len(Items(u)) # Len(Items(v))
          THEN Class(u) \o "/" \o Class(v)
     ELSE LET a == Items(u)  b == Items(v)
-             k == CHOOSE i \in 1..Len(a) : ~EqSpec(a[i], b[i]) /\ \A j \in 1..(i - 1) : EqSpec(a[j], b[j])
+             k == FirstDiff(a, b, 1)
          IN  At(a[k], b[k])
 
 \* ---------------------------------------------------------------------------------------------
